@@ -2,8 +2,11 @@ use crate::core::Property;
 
 pub mod c01;
 pub mod c02;
+pub mod c03;
 pub mod c04;
 pub mod c05;
+pub mod c06;
+pub mod c08;
 pub mod c09;
 pub mod c18;
 
@@ -11,8 +14,11 @@ pub fn all() -> Vec<Box<dyn Property>> {
     vec![
         Box::new(c01::C01),
         Box::new(c02::C02),
+        Box::new(c03::C03),
         Box::new(c04::C04),
         Box::new(c05::C05),
+        Box::new(c06::C06),
+        Box::new(c08::C08),
         Box::new(c09::C09),
         Box::new(c18::C18),
     ]
